@@ -11,6 +11,7 @@ CONSTANTS
   Depth = 12
   SeqLevels <- Levels
   SeqFlags <- FlagWords
+  SeqRewire = TRUE
   SeqNames <- AllNames
 INVARIANT ClosedSilent
 INVARIANT OpenShows
